@@ -65,7 +65,7 @@ fn observe(p: &Package, cx: &Ctx) -> Value {
             Err(_) => "none-reported".to_string(),
         };
         let mut bytes = vec![];
-        let wrote = p.write(&mut bytes).is_ok();
+        let wrote = p.write(&mut Plain(&mut bytes)).is_ok();
         let (hs, ps) = match rawhdr::layout(&bytes) {
             Some(l) if wrote => (bytes[l.hdr_at..l.payload_at] == cx.hdr0[..], bytes[l.payload_at..] == cx.payload0[..]),
             _ => (false, false),
@@ -85,7 +85,7 @@ fn apply(p: &Package, op: &Value) -> Result<Package, String> {
             "clear" => q.clear_signatures()?,
             _ => {
                 let mut b = vec![];
-                q.write(&mut b)?;
+                q.write(&mut Plain(&mut b))?;
                 q = Package::parse(&mut &b[..])?;
             }
         }
@@ -100,7 +100,7 @@ fn apply(p: &Package, op: &Value) -> Result<Package, String> {
 
 fn walk(start_name: &str, kind: &str, start: Package, cases: &[Value], maxlen: usize) -> Vec<Value> {
     let mut bytes = vec![];
-    start.write(&mut bytes).unwrap();
+    start.write(&mut Plain(&mut bytes)).unwrap();
     let lay = rawhdr::layout(&bytes).unwrap();
     let cx = Ctx { ids: key_id_map(), hdr0: bytes[lay.hdr_at..lay.payload_at].to_vec(), payload0: bytes[lay.payload_at..].to_vec(), files0: files_token(&start) };
     // memo: path (as string) -> (package, observation)
